@@ -36,8 +36,9 @@ Proof.
     apply render_item_line. rewrite forallb_forall in Hw. apply Hw, Hit. }
   assert (Ht : Forall (fun c => txtc c = true) (join [10] ls)).
   { apply join_lines_chars. eapply Forall_impl; [|exact Hls]. intros l [H _]. exact H. }
-  unfold parse_rfc. rewrite (txt_ascii _ Ht). cbn [negb]. rewrite (txt_upper _ Ht).
-  unfold parse_upper. rewrite Hu.
+  assert (Hlu : map upper ls = ls).
+  { apply lines_upper. eapply Forall_impl; [|exact Hls]. intros l [H _]. exact H. }
+  unfold parse_rfc. rewrite (txt_ascii _ Ht). cbn [negb].
   assert (Hok : Forall okseg ls).
   { eapply Forall_impl; [|exact Hls]. intros l [H1 H2]. split; [exact H2|apply linec_nosp, H1]. }
   assert (Hstrip : isnil (strip (join [10] ls)) = false).
@@ -47,7 +48,8 @@ Proof.
     - cbn [join]. rewrite <- (app_nil_r l). apply strip_nonnil_app; [exact Hl2|apply linec_nosp, Hl1].
     - change (join [10] (l :: l2 :: ls2)) with (l ++ 10 :: join [10] (l2 :: ls2)).
       apply strip_nonnil_app; [exact Hl2|apply linec_nosp, Hl1]. }
-  rewrite Hstrip. rewrite (unfold_plain_lines ls Hok).
+  rewrite Hstrip. rewrite Hu. rewrite (unfold_plain_lines ls Hok). rewrite Hlu, (txt_upper _ Ht).
+  unfold parse_lines.
   assert (Hsc : shortcut (o_forceset o || o_compatible o) (join [10] ls) ls = false).
   { unfold shortcut. destruct (o_forceset o || o_compatible o) eqn:Ef; [reflexivity|]. cbn [negb andb].
     try rewrite Ef in Hset. cbn [orb] in Hset.
